@@ -106,6 +106,8 @@ class Explorer:
                 return TBool
             if a.id in self.reg.classes:
                 return TRef(a.id)
+            if a.id in self.reg.records:
+                return self.reg.records[a.id]
             raise EngineError(f"no SMT sort for annotation {a.id}")
         if isinstance(a, ast.Subscript):
             base = a.value.id if isinstance(a.value, ast.Name) else getattr(a.value, "attr", None)
@@ -270,6 +272,10 @@ class Explorer:
             return NONE
         if src == "cast" or src == "typing.cast":
             return run.ev(node.args[1], fr)
+        if src == "getattr" and len(node.args) == 3 and src not in self.c.calls:
+            # default argument is not evaluated: the declared field models the attribute (see builtins.getattr)
+            from .builtins import call_builtin as _cb
+            return _cb(run, "getattr", [run.ev(node.args[0], fr), run.ev(node.args[1], fr)], {}, node, fr)
         # per-unit call mapping (sidecar `calls`)
         if src in self.c.calls:
             args, kwargs = self.eval_args(run, node, fr)
@@ -284,8 +290,21 @@ class Explorer:
             objnode = node.func.value
             if isinstance(objnode, ast.Call) and isinstance(objnode.func, ast.Name) and objnode.func.id == "super":
                 raise EngineError("super() not supported")
+            if (isinstance(objnode, ast.Call) and isinstance(objnode.func, ast.Attribute) and objnode.func.attr == "setdefault"
+                    and len(objnode.args) == 2):
+                # d.setdefault(k, v).m(...)  mutates the value stored in d: evaluate the setdefault, then treat the
+                # receiver as the lvalue d[k] so that the mutation is written back
+                run.ev(objnode, fr)
+                objnode = ast.Subscript(value=objnode.func.value, slice=objnode.args[0], ctx=ast.Load(), lineno=node.lineno, col_offset=node.col_offset)
             obj = run.ev(objnode, fr)
             attr = node.func.attr
+            if isinstance(obj, Val) and isinstance(obj.ty, TDict) and attr == "setdefault" and len(node.args) == 2:
+                key = run.ev(node.args[0], fr)
+                dflt = run.ev_typed(node.args[1], fr, obj.ty.v)
+                res, new = call_method(run, obj, attr, [key, dflt], {}, node)
+                if new is not None:
+                    run.assign(objnode, new, fr)
+                return res
             if isinstance(obj, (Val, VTuple)) and not (isinstance(obj, Val) and isinstance(obj.ty, TRef) and not self.reg.stubs.get(("method", obj.ty.name, attr))):
                 hook = self.reg.stubs.get(("method", _tyname(obj), attr))
                 args, kwargs = self.eval_args(run, node, fr)
@@ -763,7 +782,19 @@ class Explorer:
         run.old = {"heap": dict(run.heap), "globals": dict(run.globals), "vars": dict(fr.vars), "ghost": dict(run.ghost)}
         for req in c.requires:
             run.assume(run.spec_bool(req, fr))
+        self.add_watch(run, fr, "pre")
         return fr
+
+    def add_watch(self, run, fr, when):
+        if self.c.watch is None:
+            return
+        from .interp import SpecCtx
+        run.spec += 1
+        try:
+            for k, t in (self.c.watch(SpecCtx(run, fr), when) or {}).items():
+                run.watch[f"{when}.{k}"] = t
+        finally:
+            run.spec -= 1
 
     def run_unit(self, run):
         c = self.c
@@ -800,6 +831,7 @@ class Explorer:
         if c.result is not None:
             result = run.coerce(result, c.result)
         pf = self.post_frame(run, fr, result)
+        self.add_watch(run, pf, "post")
         run.oblige("cover#normal-exit", z3.BoolVal(True), kind="cover", expect_sat=True, note="a normal exit is reachable")
         if c.ghost_update is not None:
             from .interp import SpecCtx
